@@ -108,6 +108,23 @@ class Ctx(object):
         self.violations.append((case, viol))
 
 
+def _watched(pool, it):
+    """Results of the pool; a worker process that dies (e.g. the interpreter crashes under the code being explored) would make a
+    multiprocessing.Pool wait for ever for the lost chunk: that is a harness error (exit 2), never a hang and never a verdict."""
+    seen = {}
+    while True:
+        for p in list(pool._pool):
+            seen[p.pid] = p
+        try:
+            yield it.next(timeout=5)
+        except mp.TimeoutError:
+            dead = [(pid, p.exitcode) for pid, p in seen.items() if p.exitcode not in (None, 0)]
+            if dead:
+                raise HarnessError('worker process died (pid, exit code): %s' % dead)
+        except StopIteration:
+            return
+
+
 def run_check(mod, tier, seed, workers=None, only_case=None):
     t0 = time.time()
     workers = workers or int(os.environ.get('VERIF_WORKERS', '16'))
@@ -130,7 +147,7 @@ def run_check(mod, tier, seed, workers=None, only_case=None):
     pool = None
     if workers > 1 and n > 1:
         pool = mp.get_context('fork').Pool(workers, initializer=_winit, initargs=(mod.__name__,))
-        results_iter = pool.imap_unordered(_wrun, chunks)
+        results_iter = _watched(pool, pool.imap_unordered(_wrun, chunks))
     else:
         _winit(mod.__name__)
         results_iter = (_wrun(c) for c in chunks)
